@@ -646,7 +646,9 @@ class Interp:
         if isinstance(it, (set, frozenset)):
             return sorted(it, key=repr)
         if isinstance(it, dict):
-            return list(it.keys())
+            # (a tuple key is stored as its term: it iterates as the tuple again)
+            unterm = lambda k: PyTuple([x[1] if T.is_const(x) else x for x in k[1]]) if isinstance(k, tuple) and len(k) == 2 and k[0] == "tuple" and isinstance(k[1], tuple) else k
+            return [unterm(k) for k in it.keys()]
         if isinstance(it, Columns):
             n = it.names()
             return [PyTuple(c.split("\x1f")) if isinstance(c, str) and "\x1f" in c else c for c in n] if n is not None else None
